@@ -43,7 +43,8 @@ def explore(model, ctx, depth, nproc=None, max_states=None, label="A", validate_
     """validate_canon=N: for up to N canonical states that were reached a second time through a different
     history, apply every operation from both representatives and require identical successor keys and
     oracle verdicts (differential check that `canon` merges only states with the same futures);
-    a mismatch is a HarnessError (my abstraction is wrong), never a property violation."""
+    on a mismatch the merged-away histories are re-explored unmerged and judged by the normal oracle: their
+    violations are reported as such; a mismatch that yields no violation is a HarnessError (abstraction wrong)."""
     clone = getattr(model, "clone", None)
     observe = getattr(model, "observe", None)
     roots = list(model.roots())
@@ -121,6 +122,7 @@ def explore(model, ctx, depth, nproc=None, max_states=None, label="A", validate_
         picked = dup_pairs[::step][:validate_canon]
 
         def vwork(pair):
+            """-> None | (message, violations found on the never-expanded representative, its history)"""
             (r1, h1), (r2, h2) = pair
             a0 = rebuild(model, roots[r1], h1)
             for op in model.ops(a0):
@@ -129,13 +131,54 @@ def explore(model, ctx, depth, nproc=None, max_states=None, label="A", validate_
                 va, vb = model.step(a, op), model.step(b, op)
                 ka, kb = sorted(k for k, _ in va), sorted(k for k, _ in vb)
                 if ka != kb or (not va and _digest((r1, model.canon(a))) != _digest((r2, model.canon(b)))):
-                    return f"histories {list(h1)} and {list(h2)} share a canonical state but op {op} gives " \
-                           f"{ka}/{model.canon(a)} vs {kb}/{model.canon(b)}"
+                    msg = f"histories {list(h1)} and {list(h2)} share a canonical state but op {op} gives " \
+                          f"{ka}/{model.canon(a)} vs {kb}/{model.canon(b)}"
+                    return (msg[:1500], [(k, w, op) for k, w in vb], (r2, h2))
             return None
 
-        for msg in common.pmap(vwork, picked, nproc=nproc):
-            if msg:
-                raise common.HarnessError("canonicalisation merges states with different futures: " + msg)
+        mismatches = [m for m in common.pmap(vwork, picked, nproc=nproc) if m]
+        if mismatches:
+            # Two histories the abstraction merged behave differently: either my canon is wrong, or the code
+            # under test now depends on state the abstraction drops (hidden state introduced by a change).
+            # The merged-away representatives were never expanded, so expand them now WITHOUT merging them
+            # into the main search (own seen-set per representative) and let the normal oracle judge. Oracle
+            # verdicts on these real executions are genuine violations; only a mismatch that produces no
+            # violation at all stays a harness error.
+            found = 0
+            for msg, viols, (r2, h2) in mismatches:
+                for k, w, op in viols:
+                    ctx.report(k, f"after history {list(h2)} op {op}: {w}", {"root": roots[r2], "hist": list(h2), "op": op})
+                    found += 1
+            extra = max(2, min(4, depth - min(len(m[2][1]) for m in mismatches)))
+            for _msg, _v, (r2, h2) in mismatches[:20]:
+                local_seen = set()
+                fr = [(r2, tuple(h2))]
+                for _d in range(extra):
+                    nxt2 = []
+                    for chunk, cres in zip([fr], [work(fr)]):
+                        for (ri, hist), res in zip(chunk, cres):
+                            for dg, op, viols, _obs in res:
+                                transitions += 1
+                                if viols:
+                                    case = {"root": roots[ri], "hist": list(hist), "op": op}
+                                    for key, what in viols:
+                                        ctx.report(key, f"after history {list(hist)} op {op}: {what}", case)
+                                        found += 1
+                                    continue
+                                if dg not in local_seen:
+                                    local_seen.add(dg)
+                                    nxt2.append((ri, hist + (op,)))
+                    fr = nxt2[:400]
+                    if not fr:
+                        break
+            ctx.stats[f"{label}.canon_mismatches_re_explored"] += len(mismatches)
+            if not found:
+                # deferred: another engine of the same check may still find the violation this points at; the
+                # runner turns it into exit 2 only if the whole run ends without any violation
+                ctx.defer_harness_error("canonicalisation merges states with different futures (and re-exploring "
+                                        "the merged-away histories found no violation): " + mismatches[0][0])
+            ctx.note(f"{len(mismatches)} canonical-state pairs behaved differently (hidden state); the merged-away "
+                     f"histories were re-explored unmerged and produced {found} violation reports")
         validated = len(picked)
     ctx.stats[f"{label}.canon_pairs_validated"] += validated
     ctx.stats[f"{label}.states"] += len(seen)
